@@ -76,7 +76,7 @@ func (c *Client) Receive(_ context.Context) error {
 	}
 	c.message = c.sc.Bytes()
 	if err := c.message.Validate(); err != nil {
-		return fmt.Errorf("xsens client: receive: %w", c.sc.Err())
+		return fmt.Errorf("xsens client: receive: %w", err)
 	}
 	if c.message.Identifier() == MessageIdentifierMTData2 {
 		c.mtData2 = c.message.Data()
